@@ -527,3 +527,259 @@ Proof.
     destruct (Hfr e Ne NI' NI) as (-> & -> & E). rewrite E in Oe.
     apply (R_free _ _ R); auto.
 Qed.
+
+(* ---- pure facts about the sequence surgery ---- *)
+
+Lemma NoDup_app_iff {A} (l1 l2 : list A) :
+  NoDup (l1 ++ l2) <-> NoDup l1 /\ NoDup l2 /\ forall x, In x l1 -> ~ In x l2.
+Proof.
+  induction l1 as [|x t IH]; simpl.
+  - split; [intro H; repeat split; auto; constructor | tauto].
+  - rewrite !NoDup_cons_iff, IH, in_app_iff. split.
+    + intros (N & D1 & D2 & D3). repeat split; auto.
+      intros y [->|I]; auto.
+    + intros ((N1 & D1) & D2 & D3). repeat split; auto.
+      intros [I|I]; auto. apply (D3 x); auto.
+Qed.
+
+Lemma rem_notin e xs : ~ In e xs -> rem e xs = xs.
+Proof.
+  induction xs as [|x t IH]; simpl; auto. intro N.
+  destruct (Nat.eqb_spec x e) as [->|]; [tauto|]. f_equal. tauto.
+Qed.
+
+Lemma rem_split e pre post : ~ In e pre -> ~ In e post -> rem e (pre ++ e :: post) = pre ++ post.
+Proof.
+  intros N1 N2. induction pre as [|x t IH]; simpl.
+  - rewrite Nat.eqb_refl. apply rem_notin; auto.
+  - destruct (Nat.eqb_spec x e) as [->|]; [simpl in N1; tauto|]. f_equal. apply IH. simpl in N1; tauto.
+Qed.
+
+Lemma in_rem e xs j : In j (rem e xs) <-> In j xs /\ j <> e.
+Proof.
+  induction xs as [|x t IH]; simpl; [tauto|].
+  destruct (Nat.eqb_spec x e) as [->|N]; simpl; rewrite IH; intuition congruence.
+Qed.
+
+Lemma NoDup_rem e xs : NoDup xs -> NoDup (rem e xs).
+Proof.
+  induction 1 as [|x t N D IH]; simpl; [constructor|].
+  destruct (Nat.eqb_spec x e); auto. constructor; auto. rewrite in_rem. tauto.
+Qed.
+
+Lemma ins_after_split m e pre post : ~ In m pre -> ins_after m e (pre ++ m :: post) = pre ++ m :: e :: post.
+Proof.
+  intro N. induction pre as [|x t IH]; simpl.
+  - rewrite Nat.eqb_refl. reflexivity.
+  - destruct (Nat.eqb_spec x m) as [->|]; [simpl in N; tauto|]. f_equal. apply IH. simpl in N; tauto.
+Qed.
+
+Lemma ins_before_split m e pre post : ~ In m pre -> ins_before m e (pre ++ m :: post) = pre ++ e :: m :: post.
+Proof.
+  intro N. induction pre as [|x t IH]; simpl.
+  - rewrite Nat.eqb_refl. reflexivity.
+  - destruct (Nat.eqb_spec x m) as [->|]; [simpl in N; tauto|]. f_equal. apply IH. simpl in N; tauto.
+Qed.
+
+Lemma mem_In e xs : mem e xs = true <-> In e xs.
+Proof.
+  unfold mem. rewrite existsb_exists. split.
+  - intros (x & I & E). apply Nat.eqb_eq in E. congruence.
+  - intro I. exists e. split; auto. apply Nat.eqb_refl.
+Qed.
+
+Lemma mem_false e xs : mem e xs = false <-> ~ In e xs.
+Proof. rewrite <- mem_In. destruct (mem e xs); split; congruence. Qed.
+
+(* link e after at_ in the cycle root :: xs *)
+Definition link_after (r at_ e : nat) (xs : list nat) : list nat :=
+  if Nat.eqb at_ r then e :: xs else ins_after at_ e xs.
+
+Lemma chain_insert nx pv r xs at_ e :
+  chain nx pv r xs r -> NoDup xs -> ~ In r xs -> (at_ = r \/ In at_ xs) -> e <> r -> ~ In e xs ->
+  exists n0, nx at_ = Some n0 /\ (n0 = r \/ In n0 xs) /\
+    let xs' := link_after r at_ e xs in
+    chain (upd (upd nx e (Some n0)) at_ (Some e)) (upd (upd pv e (Some at_)) n0 (Some e)) r xs' r /\
+    NoDup xs' /\ (forall j, In j xs' <-> j = e \/ In j xs).
+Proof.
+  intros C D Nr Hat Ner Ne.
+  destruct (Nat.eq_dec at_ r) as [->|Nat_].
+  - exists (hd r xs). split; [eapply chain_first; eauto|]. split.
+    { destruct (hd_in_or r xs) as [[E _]|I]; auto. }
+    unfold link_after. rewrite Nat.eqb_refl. cbn zeta. split; [|split].
+    + apply chain_link; auto.
+    + constructor; auto.
+    + intro j. simpl. intuition congruence.
+  - destruct Hat as [->|I]; [congruence|].
+    destruct (in_split _ _ I) as (pre & post & ->).
+    apply NoDup_app_iff in D as (D1 & D2 & D3). apply NoDup_cons_iff in D2 as [D2 D4].
+    rewrite in_app_iff in Nr, Ne. simpl in Nr, Ne.
+    apply chain_app in C as [C1 C2].
+    assert (Npre : ~ In at_ pre) by (intro X; apply (D3 _ X); simpl; auto).
+    exists (hd r post). split; [eapply chain_first; eauto|]. split.
+    { destruct (hd_in_or r post) as [[E _]|I']; auto. right. apply in_or_app. simpl; auto. }
+    unfold link_after. apply Nat.eqb_neq in Nat_. rewrite Nat_. apply Nat.eqb_neq in Nat_.
+    rewrite ins_after_split by auto. cbn zeta. split; [|split].
+    + apply chain_app. split.
+      * eapply chain_frame; [| |exact C1].
+        -- intros x Hx. unfold upd.
+           destruct (Nat.eqb_spec x at_) as [->|]; [destruct Hx as [->|]; tauto|].
+           destruct (Nat.eqb_spec x e) as [->|]; [destruct Hx as [->|]; tauto|]. reflexivity.
+        -- intros x Hx. unfold upd.
+           destruct (Nat.eqb_spec x (hd r post)) as [->|].
+           { exfalso. destruct (hd_in_or r post) as [[E _]|I'].
+             - rewrite E in Hx. destruct Hx as [Hx|Hx]; [tauto|]. congruence.
+             - destruct Hx as [Hx|Hx]; [apply (D3 _ Hx); simpl; auto|]. rewrite Hx in I'. tauto. }
+           destruct (Nat.eqb_spec x e) as [->|]; [destruct Hx as [Hx| ->]; tauto|]. reflexivity.
+      * apply chain_link; auto; tauto.
+    + apply NoDup_app_iff. split; [auto|]. split.
+      * constructor; [simpl; intuition congruence|]. constructor; [tauto|auto].
+      * intros x Hx. simpl. intros [->|[->|I']]; [tauto|tauto|]. apply (D3 _ Hx). simpl; auto.
+    + intro j. rewrite !in_app_iff. simpl. intuition congruence.
+Qed.
+
+Lemma chain_remove nx pv r xs e :
+  chain nx pv r xs r -> NoDup xs -> ~ In r xs -> In e xs ->
+  exists p n, pv e = Some p /\ nx e = Some n /\ (p = r \/ In p xs) /\ (n = r \/ In n xs) /\ p <> e /\ n <> e /\
+    chain (upd nx p (Some n)) (upd pv n (Some p)) r (rem e xs) r.
+Proof.
+  intros C D Nr I.
+  destruct (in_split _ _ I) as (pre & post & ->).
+  pose proof D as D0.
+  apply NoDup_app_iff in D as (D1 & D2 & D3). apply NoDup_cons_iff in D2 as [D2 D4].
+  assert (Npre : ~ In e pre) by (intro X; apply (D3 _ X); simpl; auto).
+  destruct (chain_at _ _ _ _ _ _ _ C) as [E1 E2].
+  exists (last pre r), (hd r post). repeat split; auto.
+  - destruct (last_in_or r pre) as [[E _]|I']; auto. right. apply in_or_app; auto.
+  - destruct (hd_in_or r post) as [[E _]|I']; auto. right. apply in_or_app; simpl; auto.
+  - destruct (last_in_or r pre) as [[E _]|I']; [rewrite E; intros ->; apply Nr, in_or_app; simpl; auto|].
+    intros E. rewrite E in I'. tauto.
+  - destruct (hd_in_or r post) as [[E _]|I']; [rewrite E; intros ->; apply Nr, in_or_app; simpl; auto|].
+    intros E. rewrite E in I'. tauto.
+  - rewrite rem_split by auto. apply (chain_unlink nx pv r pre e post r); auto. constructor; auto.
+Qed.
+
+(* ---- state-level lemmas for the internal operations ---- *)
+
+Lemma nx_st_len s l z j : nx (st_len s l z) j = nx s j. Proof. reflexivity. Qed.
+Lemma pv_st_len s l z j : pv (st_len s l z) j = pv s j. Proof. reflexivity. Qed.
+Lemma ow_st_len s l z j : ow (st_len s l z) j = ow s j. Proof. reflexivity. Qed.
+Lemma vl_st_len s l z j : vl (st_len s l z) j = vl s j. Proof. reflexivity. Qed.
+Lemma lsts_st_len_upd f s i l z : lsts (st_len (st_upd f s i) l z) = lsts (st_len s l z).
+Proof. reflexivity. Qed.
+#[export] Hint Rewrite nx_st_len pv_st_len ow_st_len vl_st_len : heap.
+#[export] Hint Rewrite size_st_link size_st_unlink lsts_st_link lsts_st_unlink : heap.
+#[export] Hint Rewrite nx_st_link pv_st_link ow_st_link vl_st_link
+     nx_st_unlink pv_st_unlink ow_st_unlink vl_st_unlink using size_tac : heap.
+
+Lemma Rep_list s a l r o :
+  Rep s a -> nth_error (a_lists a) l = Some (r, o) ->
+  nth_error (lsts s) l = Some (LRec r (alen o)) /\ r < size s /\ ow s r = None /\ l < length (lsts s).
+Proof.
+  intros R H. destruct (R_lsts _ _ R) as [L1 L2].
+  destruct (proj2 (R_roots _ _ R) r (nth_error_is_root _ _ _ _ H)) as [A B].
+  repeat split; auto. rewrite L1. apply nth_error_Some. congruence.
+Qed.
+
+Lemma init_sim s a l r o :
+  Rep s a -> nth_error (a_lists a) l = Some (r, o) -> (o = None \/ o = Some []) ->
+  exists s', list_Init l s = Ok s' /\ Rep s' (a_set a l []).
+Proof.
+  intros R H Ho. destruct (Rep_list _ _ _ _ _ R H) as (Hl & Hr & Hor & Hlen).
+  unfold list_Init. rewrite (root_of_eq _ _ _ _ Hl). cbn [bind].
+  hstep. hstep. rewrite set_len_eq by (autorewrite with heap; auto).
+  eexists. split; [reflexivity|].
+  apply (Rep_set_list s a _ l r o []); auto.
+  - now autorewrite with heap.
+  - intro j. now autorewrite with heap.
+  - intro j. rewrite lsts_st_len. cbn [lsts st_upd]. rewrite Hl. reflexivity.
+  - intros j Nj _ _. hnorm. auto.
+  - intros j [].
+  - cbn [chain]. hnorm. auto.
+  - constructor.
+  - intros e [].
+  - hnorm. auto.
+  - destruct Ho as [-> | ->]; intros j [].
+Qed.
+
+Lemma len_of_st_upd f s i l : len_of (st_upd f s i) l = len_of s l. Proof. reflexivity. Qed.
+Lemma root_of_st_upd f s i l : root_of (st_upd f s i) l = root_of s l. Proof. reflexivity. Qed.
+Lemma len_of_st_link s e a n l : len_of (st_link s e a n) l = len_of s l. Proof. reflexivity. Qed.
+Lemma root_of_st_link s e a n l : root_of (st_link s e a n) l = root_of s l. Proof. reflexivity. Qed.
+Lemma len_of_st_unlink s p n l : len_of (st_unlink s p n) l = len_of s l. Proof. reflexivity. Qed.
+Lemma root_of_st_unlink s p n l : root_of (st_unlink s p n) l = root_of s l. Proof. reflexivity. Qed.
+#[export] Hint Rewrite len_of_st_upd root_of_st_upd len_of_st_link root_of_st_link len_of_st_unlink root_of_st_unlink : heap.
+
+Ltac size_tac ::=
+  rewrite ?size_st_upd, ?size_st_len, ?size_st_alloc, ?size_st_link, ?size_st_unlink; first [assumption | lia].
+
+Lemma chain_ext nx pv nx' pv' a xs b :
+  (forall j, nx' j = nx j) -> (forall j, pv' j = pv j) -> chain nx pv a xs b -> chain nx' pv' a xs b.
+Proof. intros H1 H2. apply chain_frame; auto. Qed.
+
+Lemma length_ins_after m e xs : In m xs -> length (ins_after m e xs) = S (length xs).
+Proof.
+  induction xs as [|x t IH]; simpl; [tauto|].
+  destruct (Nat.eqb_spec x m) as [->|N]; simpl; auto.
+  intros [E|I]; [congruence|]. rewrite IH; auto.
+Qed.
+
+Lemma length_ins_before m e xs : In m xs -> length (ins_before m e xs) = S (length xs).
+Proof.
+  induction xs as [|x t IH]; simpl; [tauto|].
+  destruct (Nat.eqb_spec x m) as [->|N]; simpl; auto.
+  intros [E|I]; [congruence|]. rewrite IH; auto.
+Qed.
+
+Lemma length_link_after r at_ e xs : ~ In r xs -> (at_ = r \/ In at_ xs) -> length (link_after r at_ e xs) = S (length xs).
+Proof.
+  intros Nr H. unfold link_after. destruct (Nat.eqb_spec at_ r) as [->|N]; [reflexivity|].
+  destruct H; [congruence|]. apply length_ins_after; auto.
+Qed.
+
+Lemma length_rem e xs : NoDup xs -> In e xs -> S (length (rem e xs)) = length xs.
+Proof.
+  induction 1 as [|x t N D IH]; simpl; [tauto|].
+  destruct (Nat.eqb_spec x e) as [->|Ne].
+  - intros _. rewrite rem_notin; auto.
+  - intros [E|I]; [congruence|]. simpl. rewrite IH; auto.
+Qed.
+
+Lemma insert_sim s a l r xs at_ e :
+  Rep s a -> nth_error (a_lists a) l = Some (r, Some xs) -> (at_ = r \/ In at_ xs) ->
+  e < size s -> ow s e = None -> ~ is_root a e ->
+  exists s', list_insert l (Some e) (Some at_) s = Ok (Some e, s') /\ Rep s' (a_set a l (link_after r at_ e xs)).
+Proof.
+  intros R H Hat He Oe Nre.
+  destruct (Rep_list _ _ _ _ _ R H) as (Hl & Hr & Hor & Hlen).
+  destruct (R_init _ _ R _ _ _ H) as (C & D & O).
+  assert (Nr : ~ In r xs) by (eapply Rep_root_notin; eauto).
+  assert (Ner : e <> r) by (intros ->; apply Nre; eapply nth_error_is_root; eauto).
+  assert (Nex : ~ In e xs) by (intro I; apply O in I; congruence).
+  destruct (chain_insert _ _ _ _ _ _ C D Nr Hat Ner Nex) as (n0 & En & Hn0 & C' & D' & I').
+  assert (Hat_lt : at_ < size s) by (destruct Hat as [->|I]; [auto|eapply ow_lt; eauto]).
+  assert (Hn0_lt : n0 < size s) by (destruct Hn0 as [->|I]; [auto|eapply ow_lt; eauto]).
+  assert (Nea : e <> at_) by (destruct Hat as [->|I]; [auto|intros ->; auto]).
+  unfold list_insert.
+  hstep. hstep. hnorm. rewrite En. hstep. hstep. hnorm. hstep. hstep. hnorm. hstep.
+  fold (st_link s e at_ n0).
+  hstep. hnorm. rewrite (len_of_eq _ _ _ _ Hl). cbn [bind].
+  rewrite set_len_eq by (autorewrite with heap; auto). cbn [bind].
+  eexists. split; [reflexivity|].
+  apply (Rep_set_list s a _ l r (Some xs) (link_after r at_ e xs)); auto.
+  - now autorewrite with heap.
+  - intro j. now autorewrite with heap.
+  - intro j. rewrite lsts_st_len. cbn [lsts st_upd st_link]. rewrite Hl.
+    rewrite length_link_after by auto. destruct (j =? l); [|reflexivity].
+    cbn [option_map l_root alen]. do 2 f_equal. lia.
+  - intros j Nj Nx Nx'. rewrite I' in Nx'. hnorm. unfold upd.
+    assert (j <> e) by tauto. assert (j <> at_) by (destruct Hat as [->|]; [auto|intros ->; tauto]).
+    assert (j <> n0) by (destruct Hn0 as [->|]; [auto|intros ->; tauto]).
+    hnorm. auto.
+  - intros j Ij Nj. apply I' in Ij. destruct Ij as [->|]; tauto.
+  - eapply chain_ext; [| |exact C']; intro j; now autorewrite with heap.
+  - intros x Ix. apply I' in Ix. autorewrite with heap.
+    destruct (Nat.eqb_spec x e) as [->|]; auto. destruct Ix; [congruence|auto].
+  - hnorm. auto.
+  - intros j Ij Nj. exfalso. apply Nj, I'. auto.
+Qed.
